@@ -40,6 +40,9 @@ func main() {
 	}
 	c := &props.Ctx{Prop: *prop, Tier: *tier, Shard: *shard, NShards: *nshards, Seed: *seed, Race: vsched.RaceBaton}
 	c.Only = *only
+	if c.Only == "" {
+		c.Only = os.Getenv("PIKEMC_ONLY") // (development aid: one scenario of a check; never set by a registered command)
+	}
 	if *deadline > 0 {
 		c.Deadline = time.Now().Add(*deadline)
 	}
